@@ -38,10 +38,14 @@ def run(repo, rep, tier):
     rep.rule("R19.3", "every expression is compiled through that handler")
     rep.rule("R19.4", "deferral unit: one pipe alternative, not the whole "
                       "expression")
+    rep.rule("R19.5", "same error, same location, raised iff reached: "
+                      "nobody re-sources the error's token; ExpressionError "
+                      "is not among the exceptions a pipe swallows")
     _consumer(repo, rep)
     _deferred(repo, rep)
     _through(repo, rep)
     _unit(repo, rep)
+    _same_error(repo, rep)
 
 
 def _consumer(repo, rep):
@@ -285,3 +289,37 @@ def _unit(repo, rep):
                      "(ExpressionTransform.__call__) encloses the whole "
                      "expression; no handler sits inside the alternative "
                      "loop")
+
+
+def _same_error(repo, rep):
+    # (a) the location of the error is that of its token in the parsed
+    # text: no code outside the Token class rewrites token.pos / .source
+    # (strict mode's error passes through BaseTemplate._cook's handler,
+    # non-strict mode's does not)
+    stores = L.token_field_stores(repo)
+    rep.check(not stores, "R19.5", "chameleon", "no function outside Token "
+              "assigns token.pos / token.source: the compile-time error and "
+              "the deferred error keep the location the compiler gave them",
+              construct="token-resourced",
+              where=(L.where(stores[0][0], stores[0][1]) if stores else ""),
+              detail="; ".join("%s: %s" % (f.qualname, t)
+                               for f, ln, t in stores[:3]))
+    # (b) raised iff reached: the deferred error must not be one that the
+    # pipe operator / exists: swallow
+    ee = repo.cls("chameleon.exc.ExpressionError")
+    own, ext = L.class_closure(repo, ee)
+    for q in ("chameleon.tales.TalesExpr", "chameleon.tales.ExistsExpr"):
+        ci = repo.cls(q)
+        ex = ci.attrs.get("exceptions")
+        names = [src(e) for e in ex.elts] if isinstance(ex, ast.Tuple) else []
+        if not names:
+            raise AnalysisError("%s.exceptions vanished" % q)
+        hit = sorted(b for b in ext if L.builtin_subclass(b, names)) + \
+            sorted(n for n in names if any(
+                o.rsplit(".", 1)[-1] == n for o in own))
+        rep.check(not hit, "R19.5", q + ".exceptions", "ExpressionError (and "
+                  "its bases %s) is not caught by the fallback table %s: a "
+                  "reached invalid expression is not replaced by the next "
+                  "alternative" % (sorted(ext), names),
+                  construct="swallowed:" + q.rsplit(".", 1)[-1],
+                  detail="caught through %s" % hit)
